@@ -981,3 +981,109 @@ Proof.
     + rewrite Hlen. replace (length (expand l1) + cnt r - 1) with (length (expand l1) + (cnt r - 1)) by lia.
       apply (remove_step (mkst (l1 ++ [r]) nh its) s l1 r [] (cnt r - 1) false); auto. lia.
 Qed.
+
+(* ---------- hostlist_push: the array grows at its tail only ---------- *)
+Definition grow (l l' : list hr) : Prop :=
+  (forall k, k < length l -> pre l' k = pre l k) /\
+  (forall k r, nth_error l k = Some r -> exists r', nth_error l' k = Some r' /\ cnt r <= cnt r').
+
+Lemma grow_refl l : grow l l.
+Proof. split; [reflexivity|]. intros k r H. exists r. auto. Qed.
+
+Lemma grow_trans a b c : grow a b -> grow b c -> grow a c.
+Proof.
+  intros [H1 H2] [H3 H4]. split.
+  - intros k Hk. rewrite <- H1 by exact Hk. apply H3.
+    destruct (nth_error a k) as [r|] eqn:E; [|apply nth_error_None in E; lia].
+    destruct (H2 _ _ E) as (r' & E' & _). apply nth_error_Some. congruence.
+  - intros k r E. destruct (H2 _ _ E) as (r' & E' & Hc). destruct (H4 _ _ E') as (r'' & E'' & Hc'). exists r''. split; [auto|lia].
+Qed.
+
+Lemma push_range_shape l r : push_range l r = l ++ [r] \/ exists l0 t t', l = l0 ++ [t] /\ push_range l r = l0 ++ [t'].
+Proof.
+  induction l as [|x l IH]; [left; reflexivity|].
+  destruct l as [|y l'].
+  - cbn [push_range]. destruct (prefix_cmp0 x r && (hi x =? usub (lo r) 1)%N); [|left; reflexivity].
+    destruct (width_equiv (lo x) (wid x) (lo r) (wid r)) as [[wt wr]|]; [|left; reflexivity].
+    right. exists [], x. eexists. split; reflexivity.
+  - change (push_range (x :: y :: l') r) with (x :: push_range (y :: l') r).
+    destruct IH as [->|(l0 & t & t' & -> & ->)]; [left; reflexivity|].
+    right. exists (x :: l0), t, t'. split; reflexivity.
+Qed.
+
+Lemma grow_push_range l r : Forall hr_ok l -> hr_ok r -> grow l (push_range l r).
+Proof.
+  intros Hl Hr. destruct (push_range_shape l r) as [->|(l0 & t & t' & -> & E)].
+  - split.
+    + intros k Hk. apply pre_app1. lia.
+    + intros k x H. exists x. split; [|lia]. rewrite nth_error_app_l'; [exact H|]. apply nth_error_Some. congruence.
+  - pose proof (push_range_expand _ _ Hl Hr) as He. rewrite E in *.
+    rewrite !expand_app in He. cbn [expand flat_map] in He. rewrite !app_nil_r, <- app_assoc in He. apply app_inv_head in He.
+    split.
+    + intros k Hk. rewrite app_length in Hk. cbn [length] in Hk. rewrite !pre_app1 by lia. reflexivity.
+    + intros k x H. destruct (lt_dec k (length l0)) as [Hk|Hk].
+      * rewrite nth_error_app_l' in H |- * by exact Hk. exists x. auto.
+      * assert (k = length l0 + 0) as ->.
+        { assert (k < length (l0 ++ [t])) by (apply nth_error_Some; congruence). rewrite app_length in *. cbn [length] in *. lia. }
+        rewrite nth_error_app_r' in H |- *. cbn [nth_error] in *. injection H as <-. exists t'. split; [reflexivity|].
+        unfold cnt. rewrite He, app_length. lia.
+Qed.
+
+Lemma grow_push_list rs : Forall hr_ok rs -> forall h, Forall hr_ok (ranges h) ->
+  grow (ranges h) (ranges (fold_left hl_push_range rs h)).
+Proof.
+  induction 1 as [|r rs Hr Hrs IH]; intros h Hh; cbn [fold_left]; [apply grow_refl|].
+  eapply grow_trans; [|apply IH; unfold hl_push_range; cbn [ranges]; apply push_range_ok; auto].
+  unfold hl_push_range. cbn [ranges]. apply grow_push_range; auto.
+Qed.
+
+Lemma iter_ok_grow l l' it si : grow l l' -> iter_ok l it si -> iter_ok l' it si.
+Proof.
+  intros [G1 G2] [(H0 & H1 & Hn) [Hpos Hcur]].
+  destruct (nth_error l (Z.to_nat (it_idx it))) as [r|] eqn:E.
+  - destruct (G2 _ _ E) as (r' & E' & Hc). split.
+    + split; [exact H0|]. split; [exact H1|]. rewrite E'. lia.
+    + split; [|exact Hcur]. rewrite Hpos. unfold cursor. rewrite G1; [reflexivity|]. apply nth_error_Some. congruence.
+  - destruct Hn as (-> & Hi & Hd & Hh). split.
+    + split; [exact H0|]. split; [exact H1|]. rewrite Hi. cbn [Z.to_nat].
+      destruct l' as [|r' l'']; cbn [nth_error]; [tauto|lia].
+    + split; [|exact Hcur]. rewrite Hpos. unfold cursor. rewrite Hi. reflexivity.
+Qed.
+
+Lemma iters_ok_impl l l' its sits :
+  (forall it si, iter_ok l it si -> iter_ok l' it si) -> iters_ok l its sits -> iters_ok l' its sits.
+Proof. intros H. unfold iters_ok. induction 1 as [|a b its sits Hab _ IH]; constructor; auto.
+  destruct a, b; cbn in *; auto. Qed.
+
+Lemma fold_push_inv rs : Forall hr_ok rs -> forall h, hl_inv h -> hl_inv (fold_left hl_push_range rs h).
+Proof. induction 1 as [|r rs Hr _ IH]; intros h Hh; cbn [fold_left]; auto. apply IH. apply hl_push_range_inv; auto. Qed.
+
+(* pushing an expression whose ranges are well formed appends its expansion *)
+Theorem push_refines m s e t : R m s -> create e = Ok t -> Forall hr_ok2 (ranges t) ->
+  (Z.of_nat (length (ss_names s) + length (expand (ranges t))) <= INT_MAX)%Z ->
+  exists m', st_push m e = ROk (m', Z.of_nat (length (expand (ranges t)))) /\
+             R m' (mkss (ss_names s ++ expand (ranges t)) (ss_iters s)).
+Proof.
+  intros ((Hok & Hnh & Hmax) & Hnames & Hits) Hc Ht Hb. unfold st_push. rewrite Hc.
+  set (h := push_list (hl_of_st m) t).
+  assert (Hext : extends (hl_of_st m) h (expand (ranges t))).
+  { apply push_list_ext; auto. }
+  destruct Hext as [Hok' Hexp]. cbn [hl_of_st ranges] in Hexp.
+  assert (Hinv : hl_inv h).
+  { apply fold_push_inv; [apply ok2_all_ok; auto|]. split; [apply ok2_all_ok; exact Hok|]. cbn [hl_of_st ranges nhosts]. lia. }
+  destruct Hinv as (_ & Hlen & Hpos).
+  destruct (create_size_bound _ _ Hc) as (_ & _ & Hlt).
+  assert (Hpt : hl_inv t). { unfold create in Hc. apply (create_loop_inv _ _ _ _ Hc hl_empty_inv). }
+  destruct Hpt as (_ & _ & Hpt).
+  assert (Hn' : nhosts h = Z.of_nat (length (expand (ranges h)))) by lia.
+  rewrite Hexp, app_length, <- Hnames in Hn'.
+  assert ((INT_MAX <? nhosts h)%Z = false) as -> by lia.
+  eexists. split; [f_equal; f_equal; lia|].
+  split; [split; [exact Hok'|cbn [st_nhosts st_ranges]; rewrite Hexp, app_length, <- Hnames; lia]|].
+  cbn [st_ranges st_iters ss_names ss_iters]. split; [rewrite Hexp, Hnames; reflexivity|].
+  apply (iters_ok_impl (st_ranges m)); [|exact Hits]. intros it si Hab.
+  eapply iter_ok_grow; [|exact Hab]. apply (grow_push_list (ranges t) (ok2_all_ok _ Ht) (hl_of_st m)). apply ok2_all_ok; exact Hok.
+Qed.
+
+Theorem push_refines_err m e er : create e = Err er -> st_push m e = ROk (m, 0%Z).
+Proof. intros H. unfold st_push. rewrite H. reflexivity. Qed.
